@@ -60,6 +60,16 @@ static int32_t pix[NMAX][NPX]; /* what the camera delivered (as signed ints cove
 static struct channel_reader snk;
 static int emitted, emit_errors, sink_told_to_stop, storage_stopped, lost_after_stop, filter_blocked_on_out;
 
+#ifdef CONCRETE_PX
+/* schedules symbolic, pixel values concrete and distinct per frame (1,2,4,...: a sum identifies
+ * exactly which frames were added); the arithmetic for ALL pixel values is SCN 3 */
+static int px_counter;
+static int32_t
+draw_px(void)
+{
+    return (int32_t)(1 << (px_counter++ % 7));
+}
+#else
 static int32_t
 draw_px(void)
 {
@@ -76,6 +86,7 @@ draw_px(void)
 
 /* the input tape is pre-filled with the frames the (abstract) source commits; committing frame i
  * advances the committed cursor of filter.in */
+#endif
 static void
 prefill(void)
 {
@@ -205,6 +216,37 @@ void event_destroy(struct event* e) {}
 void event_notify_all(struct event* e) { e->state_ = 1; }
 void event_wait(struct event* e) { VASSUME(e->state_); e->state_ = 0; }
 
+#if SCN == 3
+/* arithmetic kernel: accumulate() K frames of fully symbolic pixels into a zeroed f32 frame, then
+ * normalize(1/K): every pixel == (float)S * (1.0f/K) */
+static struct { struct VideoFrame f; px_t d[NPX]; } inb[K];
+static struct { struct VideoFrame f; float d[NPX]; } accb;
+int
+main(void)
+{
+    memset(&accb, 0, sizeof accb);
+    accb.f.shape.type = SampleType_f32;
+    accb.f.shape.strides.planes = NPX;
+    int32_t S[NPX];
+    for (int i = 0; i < NPX; ++i) S[i] = 0;
+    for (int w = 0; w < K; ++w) {
+        memset(&inb[w], 0, sizeof inb[w]);
+        inb[w].f.shape.type = (enum SampleType)TYPE;
+        inb[w].f.shape.strides.planes = NPX;
+        for (int i = 0; i < NPX; ++i) {
+            int32_t v = draw_px();
+            inb[w].d[i] = (px_t)v;
+            S[i] += v;
+        }
+        VASSERT(accumulate(&accb.f, &inb[w].f) == 1, "accumulate refused an integer sample type");
+    }
+    normalize(&accb.f, 1.0f / (float)K);
+    for (int i = 0; i < NPX; ++i)
+        VASSERT(accb.d[i] == (float)S[i] * (1.0f / (float)K), "C10: pixel is not the float mean of the k input pixels");
+    WITNESS_END();
+    return 0;
+}
+#else
 int
 main(void)
 {
@@ -243,3 +285,4 @@ main(void)
     WITNESS_END();
     return 0;
 }
+#endif
